@@ -218,6 +218,65 @@ fn vm_cases(s: &mut Session, cr: &mut Crafter, rng: &mut Rng) {
     s.mark_nontrivial();
 }
 
+/// Shadowsocks-2022 datagrams obey the same type and 30-second rules, at the server and at the client: datagrams
+/// sealed under the right key by the Spec-side crafter, with the type byte / timestamp varied around the limits
+pub fn udp_rules(s: &mut Session, cr: &mut Crafter, rng: &mut Rng) {
+    use crate::c02::timed;
+    for cipher in CIPHERS {
+        if !is2022(cipher) {
+            continue;
+        }
+        s.begin_case(&format!("udp-rules:{}", cipher));
+        let cfg = random_cfg(rng, cipher, false);
+        let (uc, us) = (s.fresh("uc"), s.fresh("us"));
+        s.run(&format!("ssu.client {} cipher={} password={}", uc, cipher, cfg.client_password));
+        s.run(&format!("ssu.server {} cipher={} password={} users=-", us, cipher, cfg.server_password));
+        let csid = 1 + rng.below(1 << 50);
+        s.run(&format!("ssu.setid {} csid={}", uc, csid));
+        let addr = [1u8, 127, 0, 0, 1, 0, 53];
+        let mut pid = 0u64;
+        let mut craft = |s: &mut Session, rng: &mut Rng, cr: &mut Crafter, body: Vec<u8>, sid: u64| -> String {
+            pid += 1;
+            let w = cr.ask(&format!("craft.ssu cipher={} password={} sid={} pid={} rnd={} body={}", cipher, cfg.server_password, sid, pid, hex(&rng.bytes(24)), hex(&body)));
+            s.count("craft:ssu");
+            w
+        };
+        for (dt, ty, want) in [(0i64, 0u8, true), (-29, 0, true), (29, 0, true), (-32, 0, false), (32, 0, false), (-3600, 0, false), (0, 1, false), (0, 2, false), (0, 255, false)] {
+            // towards the server: type ‖ timestamp ‖ padding length ‖ address ‖ payload
+            let now = now_secs() as i64;
+            let body = [vec![ty], ((now + dt) as u64).to_be_bytes().to_vec(), vec![0, 0], addr.to_vec(), b"dns?".to_vec()].concat();
+            let sid = 77 + rng.below(1 << 30);
+            let w = craft(s, rng, cr, body, sid);
+            let r = timed(s, &format!("ssu.sdec {} {}", us, w));
+            if r.starts_with("ok") != want {
+                s.oracle_fail(&format!("udp-rules:{}:server", cipher), &format!("a client datagram typed {} with a timestamp {} s off the clock was {}", ty, dt, if want { "refused" } else { "accepted" }));
+            }
+            // towards the client: type ‖ timestamp ‖ client session id ‖ padding length ‖ address ‖ payload
+            let now = now_secs() as i64;
+            let body = [vec![1 - ty.min(1) + if ty > 1 { ty } else { 0 }], ((now + dt) as u64).to_be_bytes().to_vec(), csid.to_be_bytes().to_vec(), vec![0, 0], addr.to_vec(), b"dns!".to_vec()].concat();
+            let sid = 99 + rng.below(1 << 30);
+            let w = craft(s, rng, cr, body, sid);
+            let r = timed(s, &format!("ssu.cdec {} {}", uc, w));
+            if r.starts_with("ok") != want {
+                s.oracle_fail(&format!("udp-rules:{}:client", cipher), &format!("a server datagram (type rule {}, timestamp {} s off the clock) was {}", if ty == 0 { "met" } else { "broken" }, dt, if want { "refused" } else { "accepted" }));
+            }
+        }
+        // reflection: what the server itself sealed, shaped so that it parses under the client layout, sent back to the server
+        let reflect_csid: u64 = 0x0000_017f_0000_0100;
+        let w = timed(s, &format!("ssu.senc {} csid={} ssid={} pid=1 addr=4:7f000001:53 payload={}", us, reflect_csid, rng.below(1 << 40), hex(b"reflected")));
+        let r = timed(s, &format!("ssu.sdec {} {}", us, w));
+        if r.starts_with("ok") {
+            s.oracle_fail(&format!("udp-rules:{}:reflected-to-server", cipher), "the server took its own datagram for a client's");
+        }
+        let w = timed(s, &format!("ssu.cenc {} addr=4:7f000001:53 payload={}", uc, hex(b"reflected")));
+        let r = timed(s, &format!("ssu.cdec {} {}", uc, w));
+        if r.starts_with("ok") {
+            s.oracle_fail(&format!("udp-rules:{}:reflected-to-client", cipher), "the client took its own datagram for the server's");
+        }
+        s.mark_nontrivial();
+    }
+}
+
 pub fn generate(s: &mut Session, tier: &str, rng: &mut Rng) {
     let Some(mut cr) = Crafter::new() else {
         s.begin_case("no-driver");
@@ -237,4 +296,5 @@ pub fn generate(s: &mut Session, tier: &str, rng: &mut Rng) {
     }
     // "... also when copies arrive concurrently": the same handshake presented by several threads at once
     crate::c09::race_cases(s, tier, rng);
+    udp_rules(s, &mut cr, rng);
 }
